@@ -82,6 +82,12 @@ impl Iterator for MinimiserGenerator<'_> {
 
         loop {
             if self.pos == self.seq.len() {
+                // emit the run that is still open at the end of the sequence
+                if self.m_active != u64::MAX {
+                    let m_val = self.m_active;
+                    self.m_active = u64::MAX;
+                    return Some((m_val, self.m_window_start, self.seq.len()));
+                }
                 return None;
             }
             let pos_char = self.seq[self.pos];
@@ -179,11 +185,6 @@ impl Iterator for MinimiserGenerator<'_> {
                         self.m_active = *self.buff.get(j).unwrap();
                     }
                 }
-            }
-
-            if self.pos == self.seq.len() - 1 {
-                self.pos += 1;
-                return Some((self.m_active, self.m_window_start, self.seq.len()));
             }
 
             self.pos += 1;
